@@ -38,6 +38,11 @@ pub struct Machine {
     pub stream: Option<EventStream>,
     pub ctl: Option<ControlHandle>,
     pub root: Arc<Wk>,
+    /// a second waker: a consumer may poll with another waker each time (stream handed between tasks); only the
+    /// waker of the LATEST poll has to be woken (Script::switch_wakers)
+    pub alt: Arc<Wk>,
+    pub use_alt: bool,
+    pub switch_wakers: bool,
     pub polled_at: usize,
     pub ended: bool,
     pub polls: usize,
@@ -208,11 +213,19 @@ impl Machine {
                 }
             }
         }
-        Machine { w: w.clone(), stream: Some(stream), ctl, root: Arc::new(Wk(AtomicUsize::new(1))), polled_at: 0, ended: false, polls: 0, storage, app_set, took: 0, hold_storage_next: false, hold_app_set_next: false }
+        Machine { w: w.clone(), stream: Some(stream), ctl, root: Arc::new(Wk(AtomicUsize::new(1))), alt: Arc::new(Wk(AtomicUsize::new(1))), use_alt: false, switch_wakers: lock(w).script.switch_wakers, polled_at: 0, ended: false, polls: 0, storage, app_set, took: 0, hold_storage_next: false, hold_app_set_next: false }
+    }
+
+    fn current(&self) -> &Arc<Wk> {
+        if self.use_alt {
+            &self.alt
+        } else {
+            &self.root
+        }
     }
 
     pub fn woken(&self) -> bool {
-        self.root.0.load(Ordering::SeqCst) != self.polled_at
+        self.current().0.load(Ordering::SeqCst) != self.polled_at
     }
 
     /// Poll the stream once. Returns Some(event) if the consumer took one.
@@ -240,9 +253,13 @@ impl Machine {
         } else {
             None
         };
-        self.polled_at = self.root.0.load(Ordering::SeqCst);
+        if self.switch_wakers {
+            self.use_alt = !self.use_alt;
+        }
+        let current = if self.use_alt { self.alt.clone() } else { self.root.clone() };
+        self.polled_at = current.0.load(Ordering::SeqCst);
         self.polls += 1;
-        let wk = futures::task::waker(self.root.clone());
+        let wk = futures::task::waker(current.clone());
         let mut cx = Context::from_waker(&wk);
         match stream.as_mut().poll_next(&mut cx) {
             Poll::Ready(Some(e)) => {
@@ -276,7 +293,7 @@ impl Machine {
                     self.took += 1;
                 }
                 // Ready(Some) owes no wake-up: the consumer may poll again at will
-                self.root.0.fetch_add(1, Ordering::SeqCst);
+                current.0.fetch_add(1, Ordering::SeqCst);
                 Some(v)
             }
             Poll::Ready(None) => {
